@@ -82,19 +82,21 @@ func (p *Program) computeProblems() {
 		scope int
 		name  string
 	}
-	groups := map[key][]Decl{}
+	count := make(map[key]int, len(p.decls))
 	var order []key
 	for _, d := range p.decls {
 		k := key{d.ScopeID, d.Name}
-		if _, ok := groups[k]; !ok {
+		count[k]++
+		if count[k] == 2 {
 			order = append(order, k)
 		}
-		groups[k] = append(groups[k], d)
 	}
 	for _, k := range order {
-		ds := groups[k]
-		if len(ds) < 2 {
-			continue
+		var ds []Decl
+		for _, d := range p.decls {
+			if d.ScopeID == k.scope && d.Name == k.name {
+				ds = append(ds, d)
+			}
 		}
 		allFuncs := true
 		sigs := map[string]bool{}
@@ -117,9 +119,13 @@ func (p *Program) computeProblems() {
 		}
 		p.problems = append(p.problems, fmt.Sprintf("duplicate: %q declared %d times in scope %d (%s)", k.name, len(ds), k.scope, strings.Join(lines, ", ")))
 	}
-	seen := map[string]bool{}
+	type dk struct {
+		kind, name string
+		scope      int
+	}
+	seen := make(map[dk]bool, len(p.decls))
 	for _, d := range p.decls {
-		id := d.Kind + ":" + d.Name + fmt.Sprint(d.ScopeID)
+		id := dk{d.Kind, d.Name, d.ScopeID}
 		if seen[id] {
 			continue
 		}
